@@ -169,10 +169,12 @@ C03ViewReason(e) ==
   ELSE IF e.view = "raw" THEN
          (IF e.ids # <<0>> THEN "view_ids"
           ELSE IF ~(e.vals[1] = blk \/ e.vals[1] = Drop(blk, 4)) THEN "view_values"
-          ELSE IF e.marshal # blk \/ e.size # Len(blk) \/ e.mton # Len(blk) \/ Take(e.mto, Len(blk)) # blk THEN "view_reserialise" ELSE "")
+          ELSE IF e.marshal # blk \/ e.size # Len(blk) \/ e.mton # Len(blk) \/ Take(e.mto, Len(blk)) # blk THEN "view_reserialise"
+          ELSE IF e.used_res # "ok" \/ e.used_ids # e.ids \/ e.used_vals # e.vals \/ e.used_marshal # e.marshal THEN "view_that_decoded_another_block_before_differs" ELSE "")
   ELSE IF e.ids # Ids(e.want) THEN "view_ids"
   ELSE IF e.vals # Vals(e.want) THEN "view_values"
   ELSE IF e.marshal # blk \/ e.size # Len(blk) \/ e.mton # Len(blk) \/ Take(e.mto, Len(blk)) # blk THEN "view_reserialise"
+  ELSE IF e.used_res # "ok" \/ e.used_ids # e.ids \/ e.used_vals # e.vals \/ e.used_marshal # e.marshal THEN "view_that_decoded_another_block_before_differs"
   ELSE ""
 
 -----------------------------------------------------------------------------
